@@ -34,6 +34,8 @@
 #include "netdump.h"
 #include <gatery/export/vhdl/VHDLExport.h>
 #include <gatery/export/vhdl/AST.h>
+#include <gatery/export/vhdl/Entity.h>
+#include <gatery/export/vhdl/Block.h>
 #include <gatery/frontend/SynthesisTool.h>
 #include <gatery/frontend/ExternalModule.h>
 #include <gatery/simulation/waveformFormats/VCDSink.h>
@@ -103,6 +105,17 @@ namespace perturb {
 		}
 		inside = old;
 	}
+	// Fresh sorted pools at the start of every PHASE (construction, post-processing, export, simulation): the
+	// objects a phase creates itself (post-processing's new nodes, the exporter's vhdl::Entity / Block / Process
+	// objects, the simulator's tables) are then served in the descending / ascending / random order as well,
+	// instead of meeting pools the earlier phases have already emptied.
+	static void phase() {
+		if (level < 2) return;
+		int l = level; level = 0;
+		releasePools(); fillPools();
+		level = l;
+	}
+
 	static void *allocPooled(size_t sz) {
 		size_t c = (sz + 15) / 16;
 		if (c < NCLASS) {
@@ -267,6 +280,7 @@ public:
 // ------------------------------------------------------------------------------------------------
 struct HandDesign { const char *name; const char *omode; const char *tool; std::function<void()> build; };
 
+static void subEntity(const std::string &name, UInt &v, const Bit &c, bool partition, int depth);
 static void subEntity(const std::string &name, UInt &v, const Bit &c, bool partition, int depth) {
 	Area area(name, true);
 	if (partition) area.setPartition(true);
@@ -344,8 +358,63 @@ static void clockFamily(int v) {
 	pinOut(reg(reg(x, 1) + 1)).setName("y");
 }
 
+// Node groups of type AREA (GroupScope(AREA): NOT the frontend class Area, which makes ENTITY groups) are exported as
+// VHDL BLOCK statements when they contain a sub-entity, an external node or another area, and as a process when
+// they hold logic only.  kind 0: area with a sub-entity, 1: area with an external module, 2: area with a nested
+// area that holds the sub-entity, 3: logic only.
+static void lane(const std::string &name, UInt &v, const Bit &c, int kind) {
+	GroupScope area(GroupScope::GroupType::AREA, name);
+	UInt a = v + 1;
+	setName(a, name + "_a");
+	if (kind == 0) subEntity(name + "_ent", a, c, false, 0);
+	else if (kind == 1) {
+		ExternalModule ext{ "EXT_" + name, "work" };
+		ext.in("d", a.width()) = (BVec) a;
+		UInt y = a ^ 1;
+		UInt ex = (UInt) ext.out("q", a.width());
+		setName(ex, name + "_extq");
+		y.exportOverride(ex);
+		a = y;
+	} else if (kind == 2) {
+		GroupScope inner(GroupScope::GroupType::AREA, name + "_inner");
+		UInt b = a ^ v;
+		subEntity(name + "_deep", b, ~c, false, 0);
+		a = b + 1;
+	} else {
+		IF (c) a = a + v; ELSE a = a & v;
+	}
+	a = reg(a ^ v, 0);
+	setName(a, name + "_r");
+	v = a;
+}
+
+static void areaFamily(int v) {
+	UInt x = pinIn(3_b).setName("x");
+	Bit c = pinIn().setName("c");
+	static const int kinds[4][6] = { {0, 0, 3, 1, 2, 0}, {2, 0, 0, 3, 0, 1}, {0, 1, 0, 2, 3, 0}, {0, 0, 0, 0, 0, 0} };
+	std::vector<std::string> names = { "lane_a", "lane_b", "lane_c", "lane_d", "lane_e", "lane_f" };
+	std::rotate(names.begin(), names.begin() + v, names.end());
+	UInt acc = x;
+	// sibling areas in the root entity, next to an entity instantiation and a plain process area
+	for (int k = 0; k < 4; k++) { UInt t = x + k; lane(names[k], t, c, kinds[v][k]); acc = acc ^ t; }
+	{ UInt t = x; subEntity("direct_ent", t, c, false, 0); acc = acc + t; }
+	// ... and the same inside a sub-entity
+	{
+		Area sub("holder", true);
+		UInt s = x ^ 5;
+		for (int k = 4; k < 6; k++) { UInt t = s + k; lane(names[k], t, ~c, kinds[v][k]); s = s ^ t; }
+		{ UInt t = s; lane("holder_lane_g", t, c, 0); s = s + t; }
+		acc = acc ^ s;
+	}
+	pinOut(acc).setName("acc");
+}
+
 static std::vector<HandDesign> handDesigns() {
 	std::vector<HandDesign> res;
+	res.push_back({"h_areafam0", "single", "default", [] { areaFamily(0); }});
+	res.push_back({"h_areafam1", "entity", "ghdl", [] { areaFamily(1); }});
+	res.push_back({"h_areafam2", "partition", "vivado", [] { areaFamily(2); }});
+	res.push_back({"h_areafam3", "entity", "quartus", [] { areaFamily(3); }});
 	res.push_back({"h_clockfam0", "single", "default", [] { clockFamily(0); }});
 	res.push_back({"h_clockfam1", "entity", "ghdl", [] { clockFamily(1); }});
 	res.push_back({"h_clockfam2", "partition", "vivado", [] { clockFamily(2); }});
@@ -701,6 +770,7 @@ static bool construct(const Job &job, const std::string &dir, int perturbLevel, 
 		}
 
 		for (size_t s = 0; s < shuffles; s++) design.getCircuit().shuffleNodes();
+		perturb::phase();
 		design.postprocess();
 
 		auto pins = nd::findPins(design.getCircuit());
@@ -734,7 +804,26 @@ static bool construct(const Job &job, const std::string &dir, int perturbLevel, 
 				vhdl->writeStandAloneProjectFile("standalone.txt");
 				vhdl->writeClocksFile("clocks.txt");
 				vhdl->writeConstraintsFile("constraints.txt");
+				perturb::phase();
 				(*vhdl)(design.getCircuit());
+				{
+					// diagnostics: relative ADDRESS order of the exporter's own objects (vhdl::Entity in dependency order,
+					// vhdl::Block per entity in creation order) - allocated during the export phase
+					bool oldi = perturb::inside; perturb::inside = true;
+					auto ents = vhdl->getAST()->getDependencySortedEntities();
+					std::vector<uintptr_t> ea, ba;
+					size_t maxBlocks = 0;
+					for (auto *e : ents) {
+						ea.push_back((uintptr_t)e);
+						maxBlocks = std::max(maxBlocks, e->getBlocks().size());
+						for (auto &b : e->getBlocks()) ba.push_back((uintptr_t)b.get());
+					}
+					auto rank = [](const std::vector<uintptr_t> &v) { std::string r; for (auto x : v) { size_t k = 0; for (auto y : v) if (y < x) k++; r += " " + std::to_string(k); } return r; };
+					meta << "vhdlentities " << ea.size() << " addrrank" << rank(ea) << "\n";
+					meta << "vhdlblocks " << ba.size() << " maxperentity " << maxBlocks << " addrrank" << rank(ba) << "\n";
+					perturb::inside = oldi;
+				}
+				perturb::phase();
 				{
 					std::ofstream fl("files.txt");
 					for (auto &f : SynthesisTool::sourceFiles(*vhdl, true, false)) fl << f.string() << "\n";
